@@ -99,3 +99,51 @@ func VH_C14_Tokens() {
 	symAssert((e0 == nil) == (e1 == nil), "padding-keeps-acceptance")
 	symAssert(o1 == o0, "padding-with-tags-changes-nothing")
 }
+
+// ---- C14.comments: comments may be inserted anywhere between constructs -----------------------------
+
+// VH_C14_Comments: a template cut into pieces at construct boundaries (text with apostrophes and
+// quotes, prints with string literals, an if block) gets two comments inserted at symbolically chosen
+// boundaries; the comment bodies are symbolic (up to N bytes over {a, ', ", #, }, {, %, blank}, not
+// containing the comment terminator). The output is that of the template without the comments.
+func VH_C14_Comments() {
+	pieces := [][]string{
+		{"It's ", "{{ x }}", "'s \"own\" ", "{{ 'a' ~ x }}", " end"},
+		{"", "{% if x %}", "don't", "{% endif %}", "\"", "{{ x }}", "'"},
+		{"a", "{{ x }}", "b"},
+	}[symChoice(3)]
+	n := symParam("N", 3)
+	mk := func() string {
+		c := symStringIn(symChoice(n+1), "a'\"#}{% ")
+		for i := 0; i+1 < len(c); i++ {
+			symAssume(!(c[i] == '#' && c[i+1] == '}'))
+		}
+		if len(c) > 0 {
+			symAssume(c[len(c)-1] != '#')
+		}
+		return "{#" + c + "#}"
+	}
+	c1, c2 := mk(), mk()
+	p1, p2 := symChoice(len(pieces)+1), symChoice(len(pieces)+1)
+	base, with := "", ""
+	for i := 0; i <= len(pieces); i++ {
+		if i == p1 {
+			with += c1
+		}
+		if i == p2 {
+			with += c2
+		}
+		if i < len(pieces) {
+			base += pieces[i]
+			with += pieces[i]
+		}
+	}
+	x := symStringIn(1, "ab")
+	ctx := map[string]interface{}{"x": x}
+	o0, e0 := vhRenderFresh(base, ctx)
+	o1, e1 := vhRenderFresh(with, ctx)
+	symCover("rendered")
+	symAssert(e0 == nil, "renders")
+	symAssert(e1 == nil, "comments-keep-acceptance")
+	symAssert(o1 == o0, "comments-change-nothing")
+}
